@@ -22,7 +22,13 @@ from ..terms import fp
 
 DEPTH = {"quick": (2, 3), "thorough": (3, 4)}   # (all sequences, sequences with a special event)
 PROBES = [None, 0, 7, "a", "ab", [0], [0, "a"], {"a": 0}, {"a": 0, "b": "a"}, [], {}, 1.5]
-VALS = {"v_int": 0, "v_list": [0, "a"], "v_dict": {"a": 0}, "v_bad": [None]}
+VALS = {"v_int": 0, "v_list": [0, "a"], "v_dict": {"a": 0}, "v_bad": [None],
+        # values that are == (and hash alike) but of different kinds: forced collisions for any
+        # cache or table keyed by value
+        "v_zero": 0, "v_fzero": 0.0, "v_false": False, "v_one_list": [1], "v_fone_list": [1.0],
+        "v_true_list": [True], "v_str": "a", "v_bytes": b"a"}
+COLLIDING = ("v_zero", "v_fzero", "v_false", "v_str", "v_bytes")
+COLLIDING_LISTS = ("v_one_list", "v_fone_list", "v_true_list")
 NPOOL = 6
 
 
@@ -87,6 +93,9 @@ def events():
            ("eq", 2, 5), ("eq", 3, 3), ("eq", 0, "last"),
            ("repr", "last"), ("gen", "last"), ("validate", "last", "v_list"),
            ("validate", "last", "V0"), ("subst", "last", "v_dict"), ("refine_fail_last",)]
+    ev += [("from_native_v", vn) for vn in COLLIDING]
+    ev += [("subst_untyped", vn) for vn in COLLIDING_LISTS]
+    ev += [("subst_untyped_dict", vn) for vn in COLLIDING[:3]]
     muts = [("mut", "L0.append"), ("mut", "L0.clear"), ("mut", "L0.setitem"), ("mut", "D0.set"),
             ("mut", "D0.del"), ("mut", "V0.append"), ("mut", "V0.nested"), ("mut", "G"),
             ("mut", "R"), ("mut", "K")]
@@ -166,6 +175,12 @@ def step(st, e, rng):
         if k == "from_native":
             v = arg("V0", st.V0)
             return from_native(v), args
+        if k == "from_native_v":
+            return from_native(arg(e[1], VALS[e[1]])), args
+        if k == "subst_untyped":
+            return substitute(schema.list, arg(e[1], VALS[e[1]])), args
+        if k == "subst_untyped_dict":
+            return substitute(schema.dict, arg(e[1], {"n": VALS[e[1]]})), args
         if k == "eq":
             a, b = operand(st, e[1]), operand(st, e[2])
             return ("eq", a == b, a != b), args
@@ -250,9 +265,13 @@ def run_history(seq, rng, acc=None):
             if prev is None:
                 MEMO[key] = (ok, seq)
             elif prev[0] != ok:
+                # rank: histories in which an earlier event of the SAME history can explain the
+                # difference replay standalone; a first-event mismatch was caused by an earlier
+                # history of this long-lived process
                 found.append((f"C07|outcome-depends-on-history|{e[0]}",
                               {"other_history": [list(x) for x in prev[1]],
-                               "first": f"{prev[0]!r:.300}", "now": f"{ok!r:.300}"}))
+                               "first": f"{prev[0]!r:.300}", "now": f"{ok!r:.300}"},
+                              (pos == 0, len(seq))))
         if isinstance(o, Schema):
             st.pool.append(o)
             names.append(f"result-of-{e[0]}")
@@ -277,6 +296,8 @@ def core_events():
     """Reduced alphabet for the deepest level: one event per operation kind and operand shape."""
     keep = []
     for e in events():
+        if e[0] in ("from_native_v", "subst_untyped", "subst_untyped_dict"):
+            continue
         if e[0] in ("validate", "subst") and isinstance(e[1], int) and e[1] in (0, 1, 4) \
                 and e[2] != "v_list":
             continue
@@ -284,6 +305,54 @@ def core_events():
             continue
         keep.append(e)
     return keep
+
+
+class Zygote:
+    """A helper forked from the worker BEFORE it has run any history.  On request it forks a
+    grandchild that replays one history from that pristine state and reports the signatures, so
+    a memo mismatch can be classified on the spot as 'explained by this history alone'
+    (replayable standalone) or 'caused by an earlier history of this long-lived process'."""
+
+    def __init__(self, seed):
+        import json
+        import os
+        self.req_r, self.req_w = os.pipe()
+        self.res_r, self.res_w = os.pipe()
+        self.pid = os.fork()
+        if self.pid == 0:
+            try:
+                os.close(self.req_w)
+                os.close(self.res_r)
+                fin = os.fdopen(self.req_r, "r")
+                for line in fin:
+                    seq = _seq(json.loads(line))
+                    cpid = os.fork()
+                    if cpid == 0:
+                        try:
+                            rng = e2.Scripted(seed)
+                            with e2.installed(rng):
+                                sigs = [item[0] for item in run_history(seq, rng)]
+                        except Exception as ex:  # noqa: BLE001
+                            sigs = ["zygote-error:" + type(ex).__name__]
+                        os.write(self.res_w, (json.dumps(sigs) + "\n").encode())
+                        os._exit(0)
+                    os.waitpid(cpid, 0)
+            finally:
+                os._exit(0)
+        os.close(self.req_r)
+        os.close(self.res_w)
+        self.fout = os.fdopen(self.req_w, "w")
+        self.fin = os.fdopen(self.res_r, "r")
+
+    def ask(self, seq):
+        import json
+        self.fout.write(json.dumps([list(e) for e in seq]) + "\n")
+        self.fout.flush()
+        return json.loads(self.fin.readline() or "[]")
+
+
+ZYGOTE = None
+ASKED = {}
 
 
 def sequences(tier):
@@ -302,6 +371,9 @@ def sequences(tier):
 def worker(shard, nshards, tier, seed):
     acc = Acc()
     rng = e2.Scripted(seed)
+    global ZYGOTE
+    if ZYGOTE is None:
+        ZYGOTE = Zygote(seed)          # forked while this process is still pristine
     with e2.installed(rng):
         e2.self_test(rng)
         for i, seq in enumerate(sequences(tier)):
@@ -310,8 +382,19 @@ def worker(shard, nshards, tier, seed):
             acc.count("histories")
             if any(is_special(e) for e in seq):
                 acc.count("histories_with_mutation_or_failure")
-            for sig, detail in run_history(seq, rng, acc):
-                acc.violation(sig, {"history": [list(e) for e in seq], "detail": detail, "seed": seed})
+            for item in run_history(seq, rng, acc):
+                sig, detail = item[0], item[1]
+                rank = item[2] if len(item) > 2 else (False, len(seq))
+                if len(item) > 2 and not item[2][0] and ASKED.get(sig, 0) < 400:
+                    # does this history alone, from a pristine process, show the same mismatch?
+                    ASKED[sig] = ASKED.get(sig, 0) + 1
+                    rank = (0 if sig in ZYGOTE.ask(seq) else 1,) + tuple(rank)
+                elif len(item) > 2:
+                    rank = (1,) + tuple(rank)
+                else:
+                    rank = (0,) + tuple(rank)
+                acc.violation(sig, {"history": [list(e) for e in seq], "detail": detail, "seed": seed},
+                              rank)
             acc.outcome(hash(seq))
             if i % 50021 == 0:
                 acc.sample({"history": [list(e) for e in seq]})
@@ -319,8 +402,34 @@ def worker(shard, nshards, tier, seed):
     return acc
 
 
+def _ref_task(args):
+    e, seed = args
+    rng = e2.Scripted(seed)
+    with e2.installed(rng):
+        MEMO.clear()
+        run_history((e,), rng)
+        return dict(MEMO)
+
+
+def pristine_references(seed):
+    """Outcome of every single event from the initial state, each in its own freshly forked
+    process (the parent has executed no d42 operation yet).  Seeding the memo with them makes the
+    'reached from elsewhere' comparison immune to caches that stay wrong once populated."""
+    import multiprocessing
+    ctx = multiprocessing.get_context("fork")
+    with ctx.Pool(16, maxtasksperchild=1) as pool:
+        results = pool.map(_ref_task, [(e, seed) for e in events()], chunksize=1)
+    merged = {}
+    for r in results:
+        merged.update(r)
+    return merged
+
+
 def run(tier, seed):
+    MEMO.update(pristine_references(seed))
+    nref = len(MEMO)
     acc = parallel(worker, tier, seed, nshards=64)
+    acc.n["pristine_references"] = nref
     cov = {
         "states": acc.n["pooled_schemas_checked"],
         "transitions": acc.n["steps"],
@@ -332,7 +441,8 @@ def run(tier, seed):
                 "replayed from a fresh pool; non-trivial = contains a mutation/failing event",
         "exhaustive": True,
         "bounds": {"tier": tier, "events": len(events()), "core_events": len(core_events()), "depth_all": DEPTH[tier][0],
-                   "depth_special": DEPTH[tier][1], "memo_entries": acc.n["memo_entries"]},
+                   "depth_special": DEPTH[tier][1], "memo_entries": acc.n["memo_entries"],
+                   "pristine_single_event_references": acc.n["pristine_references"]},
     }
     return acc, cov, ["no state de-duplication: hidden state is what is hunted",
                       "writes into schema.props.* internals by the caller are not part of the alphabet",
@@ -343,13 +453,35 @@ def _seq(data):
     return tuple(tuple(tuple(x) if isinstance(x, list) else x for x in e) for e in data)
 
 
-def replay(case):
+def _replay_inner(case):
     rng = e2.Scripted(case.get("seed", 0))
+    MEMO.clear()
+    MEMO.update(pristine_references(case.get("seed", 0)))
     with e2.installed(rng):
-        MEMO.clear()
         global ENTRY0
         ENTRY0 = None
         d = case.get("detail")
-        if isinstance(d, dict) and "other_history" in d:
+        if isinstance(d, dict) and "other_history" in d and len(d["other_history"]) > 1:
             run_history(_seq(d["other_history"]), rng)
-        return [sig for sig, _ in run_history(_seq(case["history"]), rng)]
+        return [item[0] for item in run_history(_seq(case["history"]), rng)]
+
+
+def replay(case):
+    """Replays in a fresh interpreter: hidden module state is what is being hunted, so the
+    replay must not inherit whatever earlier histories left behind in this process."""
+    import json
+    import os
+    import subprocess
+    import sys
+    p = subprocess.run([sys.executable, "-W", "ignore", "-m", "mc.checks.c07"], input=json.dumps(case),
+                       capture_output=True, text=True, cwd=os.path.dirname(os.path.dirname(
+                           os.path.dirname(os.path.abspath(__file__)))), timeout=600)
+    if p.returncode != 0:
+        return "replay subprocess failed: " + p.stderr[-300:]
+    return json.loads(p.stdout)
+
+
+if __name__ == "__main__":
+    import json
+    import sys
+    print(json.dumps(_replay_inner(json.loads(sys.stdin.read()))))
